@@ -430,7 +430,7 @@ PROPS['C19']['contracts'] = PROPS['C19']['contracts']    # (containers registere
 NT = 'contracts.namedtype'
 import contracts.namedtype as _nt
 NAMEDTYPES = [(NT, c.id) for c in _nt.CONTRACTS]
-for _p in ('C09', 'C10'):
+for _p in ('C09', 'C10', 'C01'):
     PROPS[_p]['contracts'] = PROPS[_p]['contracts'] + NAMEDTYPES
 SCHEMALESS = [(D, 'ber.decoder::ConstructedPayloadDecoderBase._decodeComponentsSchemaless')]
 for _p in ('C16', 'C08'):
@@ -464,6 +464,7 @@ PROPS['C09']['level_text'] = PROPS['C09'].get('level_text', '') + (
 OPEN_N = [(D, 'ber.decoder::ConstructedPayloadDecoderBase.valueDecoder@open-types[any-size]'),
           (D, 'ber.decoder::ConstructedPayloadDecoderBase.indefLenValueDecoder@open-types[any-size]')]
 PROPS['C18']['contracts'] = PROPS['C18']['contracts'] + OPEN_N
+PROPS['C06']['contracts'] = PROPS['C06']['contracts'] + [c for c in WRAPPER if c not in PROPS['C06']['contracts']]
 for _p in list(PROPS):
     NOT_CLAIMED.pop(_p, None)
 
